@@ -32,7 +32,9 @@ Section Forall.
 
   Lemma forallb_truncate : forall (l : str) max, forallb p l = true -> forallb p (truncate l max) = true.
   Proof.
-    intros l max H. unfold truncate, truncate_runes. now apply forallb_trim_space, forallb_firstn, forallb_trim_space.
+    intros l max H. unfold truncate, truncate_runes.
+    pose proof (forallb_trim_space _ (forallb_firstn (N.to_nat max) _ (forallb_trim_space l H))) as H1.
+    destruct (trim_space (firstn (N.to_nat max) (trim_space l))); [now apply forallb_firstn | exact H1].
   Qed.
 End Forall.
 
@@ -52,7 +54,9 @@ Lemma truncate_length : forall (l : str) max, rune_len (truncate l max) <= max.
 Proof.
   intros l max. unfold rune_len, truncate, truncate_runes.
   pose proof (trim_space_length (firstn (N.to_nat max) (trim_space l))) as H1.
-  pose proof (firstn_le_length (N.to_nat max) (trim_space l)) as H2. lia.
+  pose proof (firstn_le_length (N.to_nat max) (trim_space l)) as H2.
+  pose proof (firstn_le_length (N.to_nat max) l) as H3.
+  destruct (trim_space (firstn (N.to_nat max) (trim_space l))); cbn [List.length] in *; lia.
 Qed.
 
 Lemma utf8_width_pos : forall c, 1 <= utf8_width c.
@@ -64,32 +68,10 @@ Proof.
   cbn [List.length fold_right]. pose proof (utf8_width_pos c). lia.
 Qed.
 
-(* what is left of a text with a visible character is not empty *)
-Lemma trim_left_head : forall x, has_nonspace x = true -> exists c r, trim_left x = c :: r /\ is_space c = false.
+(* shortening never empties a name *)
+Lemma truncate_nonempty : forall x max, nonempty x = true -> 1 <= max -> nonempty (truncate x max) = true.
 Proof.
-  induction x as [|c x IH]; intro H; [discriminate|]. cbn [has_nonspace existsb] in H. cbn [trim_left].
-  destruct (is_space c) eqn:E; [|eauto]. cbn in H. now apply IH.
-Qed.
-
-Lemma trim_left_last : forall (l : str) c, is_space c = false -> exists l', trim_left (l ++ [c]) = l' ++ [c].
-Proof.
-  induction l as [|d l IH]; intros c Hc; cbn [app trim_left].
-  - rewrite Hc. now exists [].
-  - destruct (is_space d); [now apply IH | now exists (d :: l)].
-Qed.
-
-Lemma trim_right_head : forall c (r : str), is_space c = false -> exists r', trim_right (c :: r) = c :: r'.
-Proof.
-  intros c r Hc. unfold trim_right. cbn [List.rev]. destruct (trim_left_last (List.rev r) c Hc) as [l' ->].
-  rewrite rev_app_distr. cbn. eauto.
-Qed.
-
-Lemma truncate_nonempty : forall x max, has_nonspace x = true -> 1 <= max -> nonempty (truncate x max) = true.
-Proof.
-  intros x max H Hm. unfold truncate, truncate_runes, trim_space at 2.
-  destruct (trim_left_head x H) as [c [r [E Hc]]].
-  (* trimming the right end of something that starts with a visible character keeps that character *)
-  rewrite E. destruct (trim_right_head c r Hc) as [r' ->].
-  destruct (N.to_nat max) as [|n] eqn:En; [lia|]. cbn [firstn].
-  unfold trim_space. cbn [trim_left]. rewrite Hc. destruct (trim_right_head c (firstn n r') Hc) as [r'' ->]. reflexivity.
+  intros x max H Hm. unfold truncate, truncate_runes.
+  destruct (trim_space (firstn (N.to_nat max) (trim_space x))) as [|c t]; [|reflexivity].
+  destruct x as [|c x]; [discriminate|]. destruct (N.to_nat max) as [|n] eqn:En; [lia|]. reflexivity.
 Qed.
